@@ -952,6 +952,51 @@ func checkC19(c *Check) {
 	}
 	c.Hold("R6", "pool:users", token.NoPos, okUsers && n == 2, "the pool is used from unexpected places (a connection could be shared by two deliveries)")
 
+	// ---- R2b a receive from a bucket that reports "closed" yields no connection
+	c.Rule("R2b", "a two-valued receive from a bucket channel uses the received connection only where the channel was open (ok is true): a closed bucket yields nil", 1)
+	for _, fi := range funcs {
+		f := p.FlowOfFunc(fi)
+		n := 0
+		for _, pt := range f.Points() {
+			as, ok := pt.Node().(*ast.AssignStmt)
+			if !ok || len(as.Lhs) != 2 || len(as.Rhs) != 1 {
+				continue
+			}
+			u, ok := ast.Unparen(as.Rhs[0]).(*ast.UnaryExpr)
+			if !ok || u.Op != token.ARROW || !isBucketChan(u.X) {
+				continue
+			}
+			n++
+			cv, okv := objOf(info, as.Lhs[0]), objOf(info, as.Lhs[1])
+			uses := func(q Pt) bool {
+				if q == pt || q.Node() == nil {
+					return false
+				}
+				hit := false
+				inspectNoLit(q.Node(), func(x ast.Node) bool {
+					if call, ok := x.(*ast.CallExpr); ok && recvObj(info, call) == cv {
+						hit = true
+					}
+					if g, ok := x.(*ast.GoStmt); ok && recvObj(info, g.Call) == cv {
+						hit = true
+					}
+					if ret, ok := x.(*ast.ReturnStmt); ok {
+						for _, e := range ret.Results {
+							if objOf(info, e) == cv {
+								hit = true
+							}
+						}
+					}
+					return true
+				})
+				return hit
+			}
+			redef := func(q Pt) bool { return q != pt && q.Node() != nil && assignsObj(info, q.Node(), cv) }
+			path, found := f.ReachRefined(pt, okv, true, true, uses, redef)
+			c.Hold("R2b", fi.Name()+":recv"+itoa(n), as.Pos(), !found, "the value received from a closed bucket (nil) is used as a connection: "+f.Describe(path))
+		}
+	}
+
 	// ---- R7 the user side: what Get returned is used only when there is something, and a connection that was taken
 	// or opened is owned by somebody on every path
 	c.Rule("R7", "connectionForDomain: the value the pool returned is asserted / used only when it is non-nil; a connection taken from the pool or newly opened is, on every path, either recorded in the delivery's table (whose Close returns or closes it) or closed", 2)
